@@ -102,3 +102,45 @@ func topUnpackerCase(r *sim.R, prop string) {
 	}
 	cb = &Callbacks{FailAt: -1}
 }
+
+// topArrayCase: Config.Unpack into a fixed-size array (not inside a struct). The statement of
+// C13 speaks of the struct passed in; an array passed in is a value of the caller's just the
+// same, and a call that fails at a later element must leave the earlier ones as they were.
+func topArrayCase(r *sim.R, prop string) {
+	t := r.T
+	e := &E{R: r, Prop: prop}
+	opts := []ucfg.Option{ucfg.PathSep(".")}
+	bad := t.Choose(4, "bad-element") // 3 = none
+	in := []interface{}{uint64(10), uint64(20), uint64(30)}
+	if bad < 3 {
+		in[bad] = "zz"
+	}
+	cfg, err := ucfg.NewFrom(in, opts...)
+	if err != nil {
+		panic("harness: top-level array config: " + err.Error())
+	}
+	pre := [3]int{1, 2, 3}
+	target := pre
+	r.Probe("unpack: top-level fixed-size array target")
+	r.Tracef("config %v into %v (a [3]int passed by pointer)", in, pre)
+	r.MustComplete("Unpack", func() { err = cfg.Unpack(&target, opts...) })
+	r.StateOps++
+	if bad == 3 {
+		if err != nil {
+			e.fail("success", "Unpack", nil, "Unpack of a valid list into a [3]int failed: %v", err)
+		} else if target != [3]int{10, 20, 30} {
+			e.fail("result", "Unpack", nil, "Unpack of [10 20 30] into a [3]int gave %v", target)
+		}
+		return
+	}
+	what := "wrong type inside a list at " + itoa(bad)
+	r.Fault("corrupted setting: wrong type inside a list")
+	if err == nil {
+		e.fail("fault-fails", "Unpack", map[string]string{"what": what}, "Unpack accepted a corrupted setting: %s; result %v", what, target)
+		return
+	}
+	e.checkError(err, "Unpack", []string{itoa(bad)}, false, what)
+	if target != pre {
+		e.fail("unchanged", "Unpack", map[string]string{"what": what}, "Unpack failed (%s) but changed the array passed in: %v, was %v", what, target, pre)
+	}
+}
